@@ -51,6 +51,7 @@ type c15Env struct {
 	fwds      map[string]*fwd
 	origin    *peer
 	originTLS *peer
+	early     *peer
 	slow      sync.Map // path -> delay
 }
 
@@ -87,6 +88,21 @@ func newC15EnvLimits(idle, head, tlsHs, pp time.Duration, only ...string) *c15En
 		return defaultResponder(p, ci, ri, req, w)
 	}
 	env.origin = startOrigin("O", log, nil, resp)
+	// an origin that answers an upload on its head alone and reads no further
+	env.early = startPeer("EARLY", log, nil, func(p *peer, conn net.Conn, idx int) {
+		br := bufio.NewReader(conn)
+		for {
+			line, err := br.ReadString('\n')
+			if err != nil {
+				return
+			}
+			if line == "\r\n" {
+				break
+			}
+		}
+		io.WriteString(conn, "HTTP/1.1 413 Payload Too Large\r\nContent-Length: 0\r\nX-Peer: EARLY\r\n\r\n")
+		time.Sleep(20 * time.Second)
+	})
 	cert := ca.leaf([]string{"origin.test"}, "")
 	ot := startOrigin("OT", log, &tls.Config{Certificates: []tls.Certificate{cert}}, resp)
 	env.originTLS = ot
@@ -110,6 +126,7 @@ func newC15EnvLimits(idle, head, tlsHs, pp time.Duration, only ...string) *c15En
 			fatal("start %s: %v", st, err)
 		}
 		f.mapName("origin.test:80", env.origin.addr())
+		f.mapName("early.test:80", env.early.addr())
 		f.mapName("origin.test:443", ot.addr())
 		env.fwds[st] = f
 	}
